@@ -326,11 +326,18 @@ BDT_RULES = [
     X.Rule('using namespace', r'\busing\s+namespace\s+[\w:]+\s*;', ''),
     X.Rule('auto mask = candidates & group_mask', r'\bauto\s+(\w+)\s*=\s*(\w+)\s*&\s*(\w+);', r'bitvec \1 = bv_and(\2, \3);', 1, 1),
     X.Rule('mask[i]', r'\bmask\[(\w+)\]', r'bv_test(mask, \1)', 1, 1),
+    X.Rule('bitset.none()', r'\b(\w+)\.none\(\)', r'(\1.w == 0)'),
+    X.Rule('dispatch_table.insert(end, n, v)', r'\bm\.dispatch_table\.insert\(\s*m\.dispatch_table\.end\(\),\s*([^,]+),\s*([^;]+)\);',
+           r'for (size_t yv_k = 0, yv_n = (\1); yv_k < yv_n; ++yv_k) cells_push(&m.dispatch_table, \2);'),
+    X.Rule('std::count_if(has_concrete_classes)',
+           r'std::count_if\(\s*(\w+)\.begin\(\),\s*\1\.end\(\),\s*\[\]\(const auto&\s*(\w+)\)\s*\{\s*return\s+\2\.second\.has_concrete_classes;\s*\}\s*\)',
+           r'gm_count_concrete(&\1)'),
 ] + COMMON_TABLE_RULES + [
     X.vector_locals(r'const\s+definition\s*\*', 'vec_defp', 1),
     X.Rule('auto x = best(v)', r'\bauto\s+(\w+)\s*=\s*best\((\w+)\);', r'vec_defp \1 = best(&\2);', 1, 1),
     X.Rule('result[0]', r'\bspecs\[0\]', r'specs.data[0]', 1, 1),
     structured_binding_loops,
+    auto_ref_locals,
     range_loops,
     X.Rule('vec.push_back', r'\b(\w+)\.push_back\(', r'vec_defp_push_back(&\1, '),
     X.Rule('x.size()', r'\b([\w.>-]+)\.size\(\)', r'VEC_SIZE(\1)'),
